@@ -179,3 +179,31 @@ func legalCount(b *board.Board) int {
 	p := adapt.RefOfBoard(b)
 	return len(p.LegalMoves())
 }
+
+// quietTame reports whether the configuration's quiescence search stays small at the root and at
+// its children (many-queens positions can make a captures-only quiescence explode).
+func quietTame(h gen.Hist, cfg searchCfg) bool {
+	if !cfg.quiet {
+		return true
+	}
+	b, ok := boardOf(h)
+	if !ok {
+		return false
+	}
+	_, rcfg, _ := cfg.mk()
+	rs := &refsearch.Searcher{Cfg: rcfg, Budget: 4000}
+	rs.Quiet(b)
+	if rs.Over {
+		return false
+	}
+	for _, m := range b.Position().PseudoLegalMoves(b.Turn()) {
+		if b.PushMove(m) {
+			rs.Quiet(b)
+			b.PopMove()
+			if rs.Over {
+				return false
+			}
+		}
+	}
+	return true
+}
